@@ -466,6 +466,10 @@ class SpecGen:
             node["callback"] = True
         if cfg["effects"] and r.random() < 0.3:
             node["effects"] = r.randint(1, 2)
+        if cfg.get("effect_params") and r.random() < 0.25:
+            node["effects_opt"] = [self.selector_leaf() for _ in range(r.randint(1, 2))]
+            for x in node["effects_opt"]:
+                self.unused.remove(x)
         if cfg["nocache"] and r.random() < 0.15:
             node["cache"] = "nocache"
         forced = set(U.leaf_paths(node.get("options", {})))
@@ -573,6 +577,7 @@ def children(n):
         out.append(n["inner"])
     elif k == "dataset":
         out.extend(n.get("args", {}).values())
+        out.extend(n.get("effects_opt", []))
         if isinstance(n.get("dispatch"), dict):
             out.append(n["dispatch"]["n"])
         for _, impl in n.get("overloads", []):
